@@ -453,7 +453,9 @@ class Module(HasAccessibles):
             self.commands[name] = accessible
         if cfg is not None:
             try:
-                for propname, propvalue in cfg.items():
+                # apply 'value', 'default' and 'constant' last, as they must be checked
+                # against the datatype with all its configured properties applied
+                for propname, propvalue in sorted(cfg.items(), key=lambda item: item[0] in {'value', 'default', 'constant'}):
                     if propname in {'value', 'default', 'constant'}:
                         # these properties have ValueType(), but should be checked for datatype
                         accessible.datatype(cfg[propname])
